@@ -28,7 +28,7 @@ static time_t t2_nondet_time(void) { long long t = nondet_ll(); __CPROVER_assume
 
 /* references to request handles */
 unsigned t3_href[T2_QMAX];
-KSI_AsyncHandle *KSI_AsyncHandle_ref(KSI_AsyncHandle *h) { size_t i; for (i = 0; i < T2_QMAX; i++) if (h == &t2_h[i]) t3_href[i]++; return h; }
+KSI_AsyncHandle *KSI_AsyncHandle_ref(KSI_AsyncHandle *h) { size_t i; for (i = 0; i < T2_QMAX; i++) if (h == &T2H(i)) t3_href[i]++; return h; }
 
 /* recycle list model: a stack of <= 2 transfer objects */
 static CurlAsyncRequest *t3_rc[2]; static size_t t3_rc_len; static unsigned t3_rc_appends, t3_rc_removes;
@@ -90,9 +90,9 @@ static void t3_setup(size_t qmax) {
 	t2_first = t2_first0 = 0; t2_qlen = nondet_size(); __CPROVER_assume(t2_qlen <= qmax && qmax < T2_QMAX); t2_qlen0 = t2_qlen;
 	for (i = 0; i < T2_QMAX; i++) {
 		t2_rawp[i] = malloc(T2_RAW); __CPROVER_assume(t2_rawp[i] != NULL);
-		t2_h[i].raw = nondet_bool() ? t2_rawp[i] : NULL; t2_h[i].len = t2_len0[i] = nondet_size(); t2_h[i].state = t2_state0[i] = nondet_int();
-		t2_h[i].sentCount = t2_sent0[i] = 0; t2_h[i].reqTime = t2_reqTime0[i] = t2_nondet_time(); t2_h[i].sndTime = 0; t2_h[i].err = 0; t2_h[i].errExt = 0; t2_h[i].errMsg = NULL; t2_h[i].ctx = NULL;
-		__CPROVER_assume(t2_h[i].len <= T2_RAW);
+		T2H(i).raw = nondet_bool() ? t2_rawp[i] : NULL; T2H(i).len = t2_len0[i] = nondet_size(); T2H(i).state = t2_state0[i] = nondet_int();
+		T2H(i).sentCount = t2_sent0[i] = 0; T2H(i).reqTime = t2_reqTime0[i] = t2_nondet_time(); T2H(i).sndTime = 0; T2H(i).err = 0; T2H(i).errExt = 0; T2H(i).errMsg = NULL; T2H(i).ctx = NULL;
+		__CPROVER_assume(T2H(i).len <= T2_RAW);
 	}
 	t3_add_res = nondet_int(); t3_perform_res = nondet_int(); t3_running = nondet_int(); t3_getinfo_code_fails = nondet_bool();
 	for (i = 0; i < T3_NE; i++) t3_http[i] = (long)nondet_ll();
@@ -155,7 +155,7 @@ void harness(void) {
 	CurlAsyncRequest *cr, *other; char chunk[T3_CHUNK]; size_t n = nondet_size(), size = nondet_size(), nmemb = nondet_size(), k, ret, len0, cap0, wk = nondet_size(), wj = nondet_size();
 	unsigned char *raw0, old_wk = 0, o_old[T3_CAP]; size_t o_len; _Bool null_user = nondet_bool();
 	t3_setup(0);
-	cr = t3_mk_transfer(1, &t2_h[0]); other = t3_mk_transfer(1, &t2_h[1]);
+	cr = t3_mk_transfer(1, &T2H(0)); other = t3_mk_transfer(1, &T2H(1));
 	__CPROVER_assume(size >= 1 && size <= T3_CHUNK && nmemb >= 1 && nmemb <= T3_CHUNK && size * nmemb <= T3_CHUNK); n = size * nmemb;
 	for (k = 0; k < T3_CHUNK; k++) chunk[k] = (char)nondet_uchar();
 	len0 = cr->len; cap0 = cr->cap; raw0 = cr->raw; __CPROVER_assume(wj < n && (len0 == 0 || wk < len0)); if (len0 > 0) old_wk = cr->raw[wk];
@@ -174,9 +174,9 @@ void harness(void) {
 			__CPROVER_assert(cr->len == len0 && cr->raw == raw0 && cr->cap == cap0, "receive: a refused chunk leaves the buffer as it was");
 			REACH("chunk refused");
 		}
-		__CPROVER_assert(cr->reqCtx == &t2_h[0] && cr->easyHandle == (CURL *)&t3_e[0] && cr->ref == 1, "receive frame: the transfer object's identity is untouched");
+		__CPROVER_assert(cr->reqCtx == &T2H(0) && cr->easyHandle == (CURL *)&t3_e[0] && cr->ref == 1, "receive frame: the transfer object's identity is untouched");
 	}
-	__CPROVER_assert(other->len == o_len && other->reqCtx == &t2_h[1], "receive: another transfer's buffer is not touched (length)");
+	__CPROVER_assert(other->len == o_len && other->reqCtx == &T2H(1), "receive: another transfer's buffer is not touched (length)");
 	for (k = 0; k < T3_CAP; k++) __CPROVER_assert(IMPLIES(other->raw != NULL, other->raw[k] == o_old[k]), "receive: another transfer's buffer is not touched (contents)");
 }
 #endif
@@ -187,8 +187,8 @@ void harness(void) {
 	int fl_state0 = 0, e_of[T2_QMAX]; size_t fl_len0 = 0; size_t n_dispatched = 0, n_timeout = 0; _Bool add_failed = 0, restarted;
 	unsigned long long maxc, sto, dur;
 	t3_setup(2);
-	/* t2_h[2] is the request of a transfer that is already in flight (never in the queue) */
-	if (have_fl) { fl = t3_mk_transfer(1, &t2_h[2]); fl_state0 = t2_h[2].state; fl_len0 = fl->len; }
+	/* T2H(2) is the request of a transfer that is already in flight (never in the queue) */
+	if (have_fl) { fl = t3_mk_transfer(1, &T2H(2)); fl_state0 = T2H(2).state; fl_len0 = fl->len; }
 	if (have_rc) { rcy = t3_mk_transfer(0, NULL); t3_rc[0] = rcy; t3_rc_len = 1; }
 	maxc = parent.options[KSI_ASYNC_OPT_MAX_REQUEST_COUNT]; sto = parent.options[KSI_ASYNC_OPT_SND_TIMEOUT]; dur = parent.options[KSI_ASYNC_PRIVOPT_ROUND_DURATION];
 	res = dispatch(&hc);
@@ -196,25 +196,25 @@ void harness(void) {
 	/* --- output half: every queued request is handed to curl exactly once, or fails exactly once, or stays queued --- */
 	for (i = 0; i < 2; i++) {
 		e_of[i] = -1;
-		for (e = 0; e < T3_NE; e++) if (t3_postfields[e] == (void *)t2_rawp[i] && t3_add_calls[e] > 0 && t2_h[i].raw != NULL && i < t2_qlen0) e_of[i] = e;
+		for (e = 0; e < T3_NE; e++) if (t3_postfields[e] == (void *)t2_rawp[i] && t3_add_calls[e] > 0 && T2H(i).raw != NULL && i < t2_qlen0) e_of[i] = e;
 	}
 	for (i = 0; i < 2; i++) if (i < t2_qlen0) {
 		__CPROVER_assert(t2_removed[i] <= 1 && IFF(t2_removed[i] == 0, i >= t2_first && i < t2_first + t2_qlen), "http queue: a request is either still queued or left the queue exactly once");
 		__CPROVER_assert(t2_released[i] <= t2_removed[i] + t3_href[i], "http queue: no reference to a request is released that was not held");
 		if (!t2_removed[i]) {
-			__CPROVER_assert(t2_h[i].state == t2_state0[i] || (t2_h[i].state == KSI_ASYNC_STATE_WAITING_FOR_RESPONSE && t3_add_res != CURLM_OK), "http queue: a request that stays queued is untouched");
+			__CPROVER_assert(T2H(i).state == t2_state0[i] || (T2H(i).state == KSI_ASYNC_STATE_WAITING_FOR_RESPONSE && t3_add_res != CURLM_OK), "http queue: a request that stays queued is untouched");
 		} else if (t2_state0[i] != KSI_ASYNC_STATE_WAITING_FOR_DISPATCH) {
 			__CPROVER_assert(t3_href[i] == 0, "http queue: a request that was not waiting for dispatch is dropped from the queue and never handed to curl");
-		} else if (t2_h[i].state == KSI_ASYNC_STATE_ERROR && t2_h[i].err == KSI_NETWORK_SEND_TIMEOUT) {
+		} else if (T2H(i).state == KSI_ASYNC_STATE_ERROR && T2H(i).err == KSI_NETWORK_SEND_TIMEOUT) {
 			n_timeout++;
 			__CPROVER_assert(spec_async_timed_out(t2_now, t2_reqTime0[i], sto) && t3_href[i] == 0, "http send time-out => the configured time has elapsed and the request was never handed to curl");
-		} else if (t2_h[i].state == KSI_ASYNC_STATE_ERROR && t2_h[i].err == KSI_NETWORK_ERROR && t3_add_res != CURLM_OK && t2_rm_order[i] > 0) {
+		} else if (T2H(i).state == KSI_ASYNC_STATE_ERROR && T2H(i).err == KSI_NETWORK_ERROR && t3_add_res != CURLM_OK && t2_rm_order[i] > 0) {
 			add_failed = 1;
 		} else {
 			n_dispatched++;
 			__CPROVER_assert(t3_href[i] == 1, "http dispatched: the transfer object holds exactly one new reference to the request");
 			__CPROVER_assert(!spec_async_timed_out(t2_now0, t2_reqTime0[i], sto), "http dispatched => its send time-out had not elapsed");
-			__CPROVER_assert(t2_h[i].sndTime >= t2_now0 && t2_h[i].sndTime <= t2_now, "http dispatched => receive clock started at the time of sending");
+			__CPROVER_assert(T2H(i).sndTime >= t2_now0 && T2H(i).sndTime <= t2_now, "http dispatched => receive clock started at the time of sending");
 		}
 	}
 	for (e = 0; e < T3_NE; e++) {
@@ -234,8 +234,8 @@ void harness(void) {
 	}
 	if (add_failed) {
 		__CPROVER_assert(res == KSI_OK && t2_qlen == 0, "curl refused a transfer => reported through the requests; every request still queued fails with KSI_NETWORK_ERROR");
-		for (i = 0; i < 2; i++) if (i < t2_qlen0 && t2_rm_order[i] > 0 && t2_h[i].state == KSI_ASYNC_STATE_ERROR && t2_h[i].err == KSI_NETWORK_ERROR)
-			__CPROVER_assert(t2_removed[i] == 1 && t2_released[i] == t2_removed[i] + t3_href[i] - ((t3_rc_len > 0 && t3_rc[t3_rc_len - 1]->reqCtx == &t2_h[i]) ? 1u : 0u) , "curl refused a transfer: the failed request's references are released (the recycled transfer object may keep one until it is reused)");
+		for (i = 0; i < 2; i++) if (i < t2_qlen0 && t2_rm_order[i] > 0 && T2H(i).state == KSI_ASYNC_STATE_ERROR && T2H(i).err == KSI_NETWORK_ERROR)
+			__CPROVER_assert(t2_removed[i] == 1 && t2_released[i] == t2_removed[i] + t3_href[i] - ((t3_rc_len > 0 && t3_rc[t3_rc_len - 1]->reqCtx == &T2H(i)) ? 1u : 0u) , "curl refused a transfer: the failed request's references are released (the recycled transfer object may keep one until it is reused)");
 		REACH("curl_multi_add_handle failed");
 	}
 	restarted = (hc.roundStartAt != t3_roundStartAt0 || hc.roundCount < t3_roundCount0);
@@ -246,17 +246,17 @@ void harness(void) {
 	if (have_fl) {
 		_Bool reported = t3_reported[0];
 		if (!reported) {
-			__CPROVER_assert(t2_h[2].state == fl_state0 && t3_remove_calls[0] == 0 && t3_cleanup_calls[0] == 0 && t3_added[0], "in flight, not completed: its request and its easy handle are untouched");
+			__CPROVER_assert(T2H(2).state == fl_state0 && t3_remove_calls[0] == 0 && t3_cleanup_calls[0] == 0 && t3_added[0], "in flight, not completed: its request and its easy handle are untouched");
 		} else {
 			__CPROVER_assert(t3_remove_calls[0] == 1 && !t3_added[0], "completed transfer: detached from the multi handle exactly once");
 			if (t3_result[0] != CURLE_OK) {
-				__CPROVER_assert(t2_h[2].state == KSI_ASYNC_STATE_ERROR && t2_h[2].err == KSI_NETWORK_ERROR && t2_h[2].errExt == t3_result[0], "curl error => exactly that request fails with KSI_NETWORK_ERROR and curl's code");
+				__CPROVER_assert(T2H(2).state == KSI_ASYNC_STATE_ERROR && T2H(2).err == KSI_NETWORK_ERROR && T2H(2).errExt == t3_result[0], "curl error => exactly that request fails with KSI_NETWORK_ERROR and curl's code");
 				REACH("transfer failed in curl");
 			} else if (!t3_getinfo_code_fails && spec_http_status_is_error(t3_http[0])) {
-				__CPROVER_assert(t2_h[2].state == KSI_ASYNC_STATE_ERROR && t2_h[2].err == KSI_HTTP_ERROR && t2_h[2].errExt == t3_http[0], "HTTP 4xx/5xx => exactly that request fails with KSI_HTTP_ERROR and the status");
+				__CPROVER_assert(T2H(2).state == KSI_ASYNC_STATE_ERROR && T2H(2).err == KSI_HTTP_ERROR && T2H(2).errExt == t3_http[0], "HTTP 4xx/5xx => exactly that request fails with KSI_HTTP_ERROR and the status");
 				REACH("HTTP error status");
 			} else {
-				__CPROVER_assert(t2_h[2].state == fl_state0 || (fl_state0 == KSI_ASYNC_STATE_WAITING_FOR_RESPONSE && t2_h[2].state == KSI_ASYNC_STATE_ERROR && t2_h[2].err == KSI_NETWORK_ERROR),
+				__CPROVER_assert(T2H(2).state == fl_state0 || (fl_state0 == KSI_ASYNC_STATE_WAITING_FOR_RESPONSE && T2H(2).state == KSI_ASYNC_STATE_ERROR && T2H(2).err == KSI_NETWORK_ERROR),
 						"HTTP success: the request keeps its state (the PDUs are matched by id above), or fails with KSI_NETWORK_ERROR when the body is not a sequence of whole TLVs");
 				__CPROVER_assert(IMPLIES(fl_state0 != KSI_ASYNC_STATE_WAITING_FOR_RESPONSE, t3_deliv_off[0] == 0), "a reply for a request that is no longer waiting is not delivered");
 				if (t3_resp_n > 0) REACH("reply PDU delivered");
@@ -265,8 +265,8 @@ void harness(void) {
 			REACH("transfer completed");
 		}
 	}
-	for (i = 0; i < 2; i++) if (i < t2_qlen0 && t2_removed[i] && e_of[i] >= 0 && !t3_reported[e_of[i]] && t3_add_res == CURLM_OK && t2_state0[i] == KSI_ASYNC_STATE_WAITING_FOR_DISPATCH && t2_h[i].err != KSI_NETWORK_SEND_TIMEOUT)
-		__CPROVER_assert(t2_h[i].state == KSI_ASYNC_STATE_WAITING_FOR_RESPONSE, "a request handed to curl whose transfer has not completed is waiting for its response (errors of OTHER transfers do not touch it)");
+	for (i = 0; i < 2; i++) if (i < t2_qlen0 && t2_removed[i] && e_of[i] >= 0 && !t3_reported[e_of[i]] && t3_add_res == CURLM_OK && t2_state0[i] == KSI_ASYNC_STATE_WAITING_FOR_DISPATCH && T2H(i).err != KSI_NETWORK_SEND_TIMEOUT)
+		__CPROVER_assert(T2H(i).state == KSI_ASYNC_STATE_WAITING_FOR_RESPONSE, "a request handed to curl whose transfer has not completed is waiting for its response (errors of OTHER transfers do not touch it)");
 	if (n_dispatched == 2) REACH("two requests handed to curl in one call");
 	if (n_timeout > 0) REACH("send time-out");
 	if (have_rc && t3_rc_removes > 0) REACH("recycled transfer object reused");
